@@ -425,6 +425,8 @@ class Components(Stream):
         for t in types:
             for m in models + ['blah', '']:
                 out.append({'name': 'cc', 'sel': ['tm', t, m], 'nsid': None, 'ids': None, 'labs': None, 'parent': None})
+        out.append({'name': 'cc', 'sel': ['foreign'], 'nsid': None, 'ids': None, 'labs': None, 'parent': None})
+        out.append({'name': 'cc', 'sel': ['foreign'], 'nsid': 'ns-7', 'ids': ['id-0'], 'labs': [2], 'parent': 'node1'})
         out.append({'name': 'cc', 'sel': ['tm', None, models[0]], 'nsid': None, 'ids': None, 'labs': None, 'parent': None})
         out.append({'name': 'cc', 'sel': ['tm', types[0], None], 'nsid': None, 'ids': None, 'labs': None, 'parent': None})
         return out
@@ -435,7 +437,7 @@ class Components(Stream):
                 {'name': 'some', 'sel': ['tm', 'SmartNIC', 'blah'], 'nsid': None, 'ids': None, 'labs': None, 'parent': None},
                 {'name': 'myNIC', 'sel': ['mt', 'SmartNIC_ConnectX_6'], 'nsid': None, 'ids': None, 'labs': None, 'parent': None}]
 
-    def call(self, case):
+    def call(self, case, pool=None):
         """run generate_component; returns (component | {'err'}, the label objects handed over, the id list handed over)"""
         from fim.slivers.component_catalog import ComponentCatalog
         from fim.slivers.attached_components import ComponentType
@@ -446,7 +448,7 @@ class Components(Stream):
             labs = []
             lx = case.get('lx') or ['m'] * len(case['labs'])
             lobj = lobj_of(case)
-            objs = {}
+            objs = dict(pool or {})
             for i, k in enumerate(case['labs']):
                 if lobj[i] not in objs:           # one python object per object id; its shape = first position using it
                     kw = mk_extra(lobj[i], lx[i])
@@ -460,6 +462,8 @@ class Components(Stream):
         s = case['sel']
         if s[0] == 'mt':
             kw['model_type'] = enum[s[1]]
+        elif s[0] == 'foreign':
+            kw['model_type'] = ComponentType.GPU          # an enum member, but not of the combined enumeration
         else:
             kw['ctype'] = None if s[1] is None else ComponentType[s[1]]
             kw['model'] = s[2]
@@ -528,7 +532,9 @@ class Components(Stream):
 
     def case_term(self, case):
         s = case['sel']
-        if s[0] == 'mt':
+        if s[0] == 'foreign':
+            sel = '(ByModelType 0%N)'
+        elif s[0] == 'mt':
             enum, _ = self.members()
             sel = '(ByModelType %s)' % cN(enum[s[1]].value)
         else:
@@ -553,6 +559,8 @@ class Components(Stream):
     def entry_for(self, case):
         cat = self.catalog()
         s = case['sel']
+        if s[0] == 'foreign':
+            return 'KeyError'
         if s[0] == 'mt':
             enum, emap = self.members()
             return emap[enum[s[1]]]
@@ -796,8 +804,20 @@ class History(Stream):
                                 'labs': [rng.choice(KINDS) for _ in range(n)] if lab else None,
                                 'lx': [rng.choice(LX) for _ in range(n)], 'parent': rng.choice([None, 'node1'])}
                     gid = len(gids)
+                    src = None
+                    cands = [o for o in ops if o[0] == 'gen' and o[1] not in mutated and o[2].get('labs') and len(o[2]['labs']) >= 2
+                             and len(set(lobj_of(o[2]))) == len(o[2]['labs'])]
+                    if cands and rng.random() < 0.35:
+                        o0 = rng.choice(cands)          # same entry, the same label OBJECTS in reverse order
+                        c0 = o0[2]
+                        case = dict(c0, name=rng.choice(['nic1', 'n0']), ids=None, labs=list(reversed(c0['labs'])),
+                                    lx=list(reversed(c0.get('lx') or ['m'] * len(c0['labs']))),
+                                    lobj=list(reversed(lobj_of(c0))))
+                        src = o0[1]
+                    elif rng.random() < 0.05:
+                        case = dict(case, sel=['foreign'])
                     gids.append(gid)
-                    ops.append(['gen', gid, case])
+                    ops.append(['gen', gid, case] + ([src] if src is not None else []))
                 elif u < 0.8 and live:
                     g = rng.choice(live)
                     mutated.add(g)
@@ -832,7 +852,10 @@ class History(Stream):
                     cap._set_fields(core=v[0], ram=v[1], disk=v[2])          # in place
                     out.append(self.sz.observe(v, cap=cap))
                 elif op[0] == 'gen':
-                    c, labs, ids = self.cp.call(op[2])
+                    pool = None
+                    if len(op) > 3:         # hand over the SAME label objects an earlier call was given (other positions)
+                        pool = {int(l.device_name[4:]): l for l in (held[op[3]][1] or [])}
+                    c, labs, ids = self.cp.call(op[2], pool)
                     held[op[1]] = (c, labs, ids, op[2])
                     out.append(self.cp.full(c, op[2], labs))
                 elif op[0] == 'mutate':
@@ -905,7 +928,8 @@ class History(Stream):
         return {'case': case, 'impl': [(o if not isinstance(o, dict) or 'err' in o else o.get('name')) for o in obs][:16]}
 
     def histogram(self, cases, obs):
-        h = {'map': 0, 'gen': 0, 'mutate': 0, 'recheck': 0, 'map_on_reused_object': 0, 'gen_after_mutate': 0, 'ops': 0}
+        h = {'map': 0, 'gen': 0, 'mutate': 0, 'recheck': 0, 'map_on_reused_object': 0, 'gen_after_mutate': 0, 'ops': 0,
+             'gen_with_label_objects_of_earlier_call': sum(1 for c in cases for o in c['ops'] if o[0] == 'gen' and len(o) > 3)}
         for c in cases:
             seen, mut = set(), False
             for op in c['ops']:
@@ -941,7 +965,8 @@ class History(Stream):
         i = len(ops) - 1
         while i >= 0:
             op = ops[i]
-            cand = [o for j, o in enumerate(ops) if j != i and not (op[0] == 'gen' and o[0] in ('mutate', 'recheck') and o[1] == op[1])]
+            cand = [o for j, o in enumerate(ops) if j != i and not (op[0] == 'gen' and (
+                (o[0] in ('mutate', 'recheck') and o[1] == op[1]) or (o[0] == 'gen' and len(o) > 3 and o[3] == op[1])))]
             if cand and failing({'ops': cand}):
                 ops = cand
                 i = min(i, len(ops)) - 1
@@ -950,11 +975,64 @@ class History(Stream):
         return {'ops': ops}
 
 
+# ------------------------------------------------------------------------------------------------
+# stream 6: component_details / search_catalog
+# ------------------------------------------------------------------------------------------------
+
+class Lookup(Stream):
+    """case = ['details', model] | ['search', component-type name]"""
+    name = 'lookup'
+    header = HDR
+    case_type = '(N * str) * val'
+    check_fn = 'check_lookup'
+    rule = ('component_details for every Model, AlsoModels alias and some unknown names; search_catalog for every ComponentType '
+            'member; exhaustive over the catalogue; non-trivial = the look-up succeeds')
+
+    def gen(self, rng, tier):
+        from fim.slivers.attached_components import ComponentType
+        cat = repo_json('fim/slivers/data/component_catalog.json')
+        models = sorted(set([e['Model'] for e in cat] + [a for e in cat for a in e.get('AlsoModels', [])]))
+        return [['details', m] for m in models + ['blah', '', 'connectx-6']] + [['search', t.name] for t in ComponentType]
+
+    def observe(self, case):
+        from fim.slivers.component_catalog import ComponentCatalog
+        from fim.slivers.attached_components import ComponentType
+        try:
+            if case[0] == 'details':
+                return ComponentCatalog().component_details(model=case[1])
+            return [[k, v] for k, v in ComponentCatalog().search_catalog(ctype=ComponentType[case[1]]).items()]
+        except Exception as e:
+            return {'err': type(e).__name__}
+
+    def to_coq(self, case, o):
+        return '((%s, %s), %s)' % (cN(0 if case[0] == 'details' else 1), cstr(case[1]), py_val(o))
+
+    def oracle(self, case, o):
+        cat = repo_json('fim/slivers/data/component_catalog.json')
+        if case[0] == 'details':
+            ds = [e['Details'] for e in cat if e['Model'] == case[1]]
+            if not ds:
+                return None if o == {'err': 'CatalogException'} else 'details of unknown model %r: %r' % (case[1], o)
+            return None if o in ds else 'component_details(%r) = %r is not the Details of an entry with that Model' % (case[1], o)
+        es = [e for e in cat if e['Type'] == case[1]]
+        if not es:
+            return None if o == {'err': 'CatalogException'} else 'search of a type without entries: %r' % (o,)
+        if isinstance(o, dict):
+            return 'search_catalog(%s) raised %s' % (case[1], o['err'])
+        if sorted(k for k, _ in o) != sorted(set(e['Model'] for e in es)) or \
+                any([k, v] not in [[e['Model'], e['Details']] for e in es] for k, v in o):
+            return 'search_catalog(%s) does not list exactly the entries of that type: %r' % (case[1], o)
+        return None
+
+    def key(self, case, o):
+        return None if isinstance(o, dict) else stable_hash(case)
+
+
 class C18(Check):
     pid = 'C18'
     translators = ['gen_catalog', 'gen_caps']
     model_targets = ['Model/Catalog18.vo']
-    streams = [Sizing(), PySort(), Components(), Enum(), History()]
+    streams = [Sizing(), PySort(), Components(), Enum(), History(), Lookup()]
     trusted_base = [
         'Coq 8.16.1 kernel (coqc), vm_compute for the finite obligations over the regenerated catalogue and for the correspondence',
         'Print Assumptions of every C18 theorem: Closed under the global context (no axioms)',
